@@ -38,6 +38,10 @@ type EdgePred func(EdgeInfo) bool
 type CutSpec struct {
 	Nodes InstrPred
 	Edges EdgePred
+	// GoDeferCount: by default a `go f()` / `defer f()` instruction never counts as an enabling
+	// node (spawning or scheduling a call is not the call). Rules whose event IS the go/defer
+	// statement itself set this.
+	GoDeferCount bool
 }
 
 // Entry is the start location of a function.
@@ -125,7 +129,8 @@ func (p *Program) Reach(starts []Loc, target InstrPred, cut CutSpec) (bool, []st
 				return true, p.witness(cur, in)
 			}
 
-			if cut.Nodes != nil && cut.Nodes(in) {
+			if cut.Nodes != nil && (cut.GoDeferCount || !isGoOrDefer(in)) && cut.Nodes(in) {
+				// (a `go f()` / `defer f()` of an enabling call is not that call happening here)
 				stopped = true
 
 				break
@@ -414,4 +419,13 @@ func (p *Program) ReachesCall(f *ssa.Function, pred InstrPred, depth int) bool {
 	}
 
 	return walk(f, depth)
+}
+
+func isGoOrDefer(in ssa.Instruction) bool {
+	switch in.(type) {
+	case *ssa.Go, *ssa.Defer:
+		return true
+	}
+
+	return false
 }
